@@ -37,7 +37,7 @@ def run_history(chk, sc, cfgseed, nlev):
     rng = random.Random(cfgseed)
     cfg_ = gamma.Config.draw(rng, ndims=3, payload="tame")
     classes = [[1, 2, 1][:rng.randint(2, 3)] for _ in range(nlev)]
-    d = chk.tmp()
+    d = chk.tmp_reuse()
     os.makedirs(d)
     reg = gamma.Registry()
     aps = {}
